@@ -105,6 +105,12 @@ class HierDictDocument(DictDocument):
                 else:
                     doc = None
 
+            elif message is self.REQUEST and (issubclass(body_class, Array)
+                          or not issubclass(body_class, ComplexModelBase)):
+                # bare style with a primitive or an array: such a message has
+                # no wrapper of its own, its value sits under the method key
+                doc, = doc.values()
+
             if doc is None and ctx.descriptor.body_style is BODY_STYLE_WRAPPED:
                 # {"method": null}: no arguments were sent (null would be
                 # read as an empty argument *list* below)
